@@ -44,9 +44,13 @@ def _handlers(ck: Check, repo: Repo) -> None:
     keys = {dotted(k): call_name(v) for k, v in zip(table.keys, table.values)}
     ck.note("handler_table", keys)
     gd = repo.fn(DM, "EvolvableDistribution.get_distribution")
+    # the local holding the raw distribution: the one handed to the TorchDistribution wrapper that is returned
+    wraps = [n.value for n in walk_no_nested(gd.node) if isinstance(n, ast.Return) and isinstance(n.value, ast.Call) and call_name(n.value) == "TorchDistribution"]
+    wrapped_arg = get_kw(wraps[0], "distribution", 0) if wraps else None
+    dist_var = wrapped_arg.id if isinstance(wrapped_arg, ast.Name) else None
     built: Dict[str, ast.AST] = {}
     for n in walk_no_nested(gd.node):
-        if isinstance(n, ast.Assign) and dotted(n.targets[0]) == "dist":
+        if dist_var is not None and isinstance(n, ast.Assign) and dotted(n.targets[0]) == dist_var:
             v = n.value
             if isinstance(v, ast.Call):
                 built[call_name(v)] = v
@@ -66,7 +70,7 @@ def _handlers(ck: Check, repo: Repo) -> None:
     gcfg = CFG(gd.node)
     pairs = {}
     for n in gcfg.live_nodes():
-        if n.kind == "stmt" and isinstance(n.ast, ast.Assign) and dotted(n.ast.targets[0]) == "dist":
+        if dist_var is not None and n.kind == "stmt" and isinstance(n.ast, ast.Assign) and dotted(n.ast.targets[0]) == dist_var:
             g = [ast.unparse(gg) for gg, pol, _ in gcfg.guards_at(n) if pol and "isinstance" in ast.unparse(gg)]
             kind = g[-1].split("spaces.")[-1].rstrip(")") if g else "?"
             v = n.ast.value
@@ -80,7 +84,9 @@ def _handlers(ck: Check, repo: Repo) -> None:
     ck.ob("C16.1", gd, gd.node, has(src, 'Normal(loc=$logits, scale=$action_std)') and has(src, '$action_std = torch.exp($log_std)') and has(src, 'self.log_std.expand_as($logits)'),
           "the Normal has mean = logits and std = exp(log_std)", construct="normal parameters")
     rets = [n for n in walk_no_nested(gd.node) if isinstance(n, ast.Return)]
-    ck.ob("C16.4", gd, rets[0] if rets else gd.node, bool(rets) and ast.unparse(rets[0].value) == "TorchDistribution(dist, self.squash_output)",
+    rv = rets[0].value if rets else None
+    ck.ob("C16.4", gd, rets[0] if rets else gd.node, isinstance(rv, ast.Call) and call_name(rv) == "TorchDistribution" and len(rv.args) + len(rv.keywords) == 2
+          and dist_var is not None and dotted(get_kw(rv, "distribution", 0) or rv) == dist_var and dotted(get_kw(rv, "squash_output", 1) or rv) == "self.squash_output",
           "the wrapper is told whether outputs are squashed")
     # ---- C16.2 reductions
     red = {"NormalHandler": "independent", "BernoulliHandler": "sum1", "CategoricalHandler": "none", "MultiCategoricalHandler": "stack-sum1"}
@@ -174,7 +180,34 @@ def _forward(ck: Check, repo: Repo) -> None:
     fn = repo.fn(DM, "EvolvableDistribution.forward")
     cfg = CFG(fn.node)
     dist_set = [n for n in cfg.live_nodes() if n.kind == "stmt" and isinstance(n.ast, ast.Assign) and dotted(n.ast.targets[0]) == "self.dist"]
-    ok = len(dist_set) == 1 and ast.unparse(dist_set[0].ast.value) == "self.get_distribution(logits)" and cfg.postdominates(dist_set[0], cfg.entry)
+    # "this call's logits": a local whose every reaching definition is (a copy of) the wrapped network's output or its masked version
+    chain: Set[int] = set()  # the definition nodes the argument of get_distribution comes from
+
+    def from_net(name: str, at: Node, depth: int = 0) -> bool:
+        defs = cfg.defs_reaching(at, name)
+        if not defs or depth > 6:
+            return False
+        for d in defs:
+            x = cfg.value_of_def(d, name)
+            chain.add(d.id)
+            if isinstance(x, ast.Name):
+                good = from_net(x.id, d, depth + 1)
+            elif isinstance(x, ast.Call) and call_name(x) == "self.wrapped":
+                good = True
+            elif isinstance(x, ast.Call) and call_name(x) == "self.apply_mask" and x.args and isinstance(x.args[0], ast.Name):
+                good = from_net(x.args[0].id, d, depth + 1)
+            else:
+                good = False
+            if not good:
+                return False
+        return True
+
+    is_logits = False
+    if len(dist_set) == 1:
+        v = dist_set[0].ast.value
+        is_logits = isinstance(v, ast.Call) and call_name(v) == "self.get_distribution" and len(v.args) == 1 and not v.keywords and isinstance(v.args[0], ast.Name) \
+            and from_net(v.args[0].id, dist_set[0])
+    ok = len(dist_set) == 1 and is_logits and cfg.postdominates(dist_set[0], cfg.entry)
     ck.ob("C16.5", fn, dist_set[0].ast if dist_set else fn.node, ok, "every forward pass rebuilds the distribution from this call's logits")
     smp = [n for n in cfg.live_nodes() if n.kind == "stmt" and isinstance(n.ast, ast.Assign) and ast.unparse(n.ast.value) == "self.dist.sample()"]
     lp = [n for n in cfg.live_nodes() if n.kind == "stmt" and isinstance(n.ast, ast.Assign) and isinstance(n.ast.value, ast.Call) and call_name(n.ast.value) == "self.dist.log_prob"]
@@ -185,7 +218,7 @@ def _forward(ck: Check, repo: Repo) -> None:
     ck.ob("C16.5", fn, rets[0].ast if rets else fn.node, ok, "forward returns (that action, that log-probability, entropy)")
     # logits masked before the distribution is built
     masks = [cfg.node_of(c) for c in calls_in(fn.node) if call_name(c) == "self.apply_mask"]
-    ok = len(masks) == 1 and masks[0] is not None and dist_set and cfg.dominates(cfg.node_of(calls_in(fn.node)[0]), masks[0]) and masks[0] in cfg.defs_reaching(dist_set[0], "logits")
+    ok = len(masks) == 1 and masks[0] is not None and dist_set and cfg.dominates(cfg.node_of(calls_in(fn.node)[0]), masks[0]) and is_logits and masks[0].id in chain
     g = [(ast.unparse(gg), pol) for gg, pol, _ in cfg.guards_at(masks[0])] if masks and masks[0] else []
     ck.ob("C16.7", fn, masks[0].ast if masks and masks[0] else fn.node, ok and ("action_mask is not None", True) in g,
           "when a mask is given the masked logits (and nothing else) parameterise the distribution")
@@ -231,14 +264,19 @@ def _reeval(ck: Check, repo: Repo) -> None:
           "_get_action_and_values feeds the actor's head with the features of the given observations", construct="_get_action_and_values")
     ip = repo.fn("agilerl.algorithms.ippo", "IPPO._learn_individual")
     icfg = CFG(ip.node)
-    fw = [c for c in calls_in(ip.node) if isinstance(c.func, ast.Name) and c.func.id == "actor" and c.args and dotted(c.args[0]) == "batch_states"]
+    # minibatch observations / actions: fields 0 and 1 of the tuple unpacked from get_experiences_samples(idxs, *experiences)
+    mb = [n for n in walk_no_nested(ip.node) if isinstance(n, ast.Assign) and isinstance(n.value, ast.Call) and call_name(n.value) == "get_experiences_samples"
+          and isinstance(n.targets[0], ast.Tuple) and len(n.targets[0].elts) >= 2 and all(isinstance(e, ast.Name) for e in n.targets[0].elts[:2])]
+    mb_states, mb_actions = (mb[0].targets[0].elts[0].id, mb[0].targets[0].elts[1].id) if len(mb) == 1 else (None, None)
+    fw = [c for c in calls_in(ip.node) if isinstance(c.func, ast.Name) and c.func.id == "actor" and c.args and mb_states is not None and dotted(c.args[0]) == mb_states]
     lp = [c for c in calls_in(ip.node) if call_name(c) == "actor.action_log_prob"]
-    ok = len(fw) == 1 and len(lp) == 1 and icfg.dominates(icfg.node_of(fw[0]), icfg.node_of(lp[0])) and dotted(lp[0].args[0]) == "batch_actions"
+    ok = len(fw) == 1 and len(lp) == 1 and icfg.dominates(icfg.node_of(fw[0]), icfg.node_of(lp[0])) and dotted(lp[0].args[0]) == mb_actions
     ck.ob("C16.6", ip, lp[0] if lp else ip.node, ok, "IPPO: actor(batch_states) precedes actor.action_log_prob(batch_actions) in every minibatch")
     if ok:
         n = icfg.node_of(fw[0])
-        defs = icfg.defs_reaching(n, "batch_states")
-        ck.ob("C16.6", ip, fw[0], any("preprocess_observation(batch_states" in ast.unparse(d.ast) for d in defs if d.kind == "stmt"), "IPPO: the forward pass uses the preprocessed minibatch observations")
+        defs = icfg.defs_reaching(n, mb_states)
+        ck.ob("C16.6", ip, fw[0], any(isinstance(x, ast.Call) and call_name(x).split(".")[-1] == "preprocess_observation" and x.args and dotted(x.args[0]) == mb_states
+                                      for d in defs if d.kind == "stmt" for x in ast.walk(d.ast)), "IPPO: the forward pass uses the preprocessed minibatch observations")
 
 
 def _mask(ck: Check, repo: Repo) -> None:
@@ -290,4 +328,6 @@ VARIANTS = [
     ("ppo-eval-no-forward", _PF, "        _, _, entropy, values = self._get_action_and_values(obs)\n\n        # log_prob of passed actions given the current policy\n        log_prob = self.actor.action_log_prob(actions)",
      "        # log_prob of passed actions given the current policy\n        log_prob = self.actor.action_log_prob(actions)\n        _, _, entropy, values = self._get_action_and_values(obs)", "fire", "C16.6"),
     ("scale-action-wrong", _AF, "0.5 * (action + 1.0) * (self.action_high - self.action_low)", "0.5 * (action + 1.0) * self.action_high", "fire", "C16.4"),
+    # behaviour-preserving rename of a local (the rules must go by role, not by spelling)
+    ("forward-logits-renamed-ok", _DF, "        logits = self.wrapped(latent)\n\n        if action_mask is not None:", "        net_out = self.wrapped(latent)\n        logits = net_out\n\n        if action_mask is not None:", "silent", None),
 ]
